@@ -47,6 +47,13 @@ def _cases(tier):
             for shape in SHAPES:
                 yield {"space": "A", "n": n, "mask": mask, "shape": shape}
     fam = 3 if tier == "quick" else 4
+    # families with repeated key sets: identical key sets are similar only if a configured comparator says so
+    for ks in KEYSETS:
+        for cname in CMPSETS:
+            yield {"space": "B", "sets": [ks, ks], "cmp": cname}
+            for other in KEYSETS[::3]:
+                if other != ks:
+                    yield {"space": "B", "sets": [ks, other, ks], "cmp": cname}
     for k in range(2, fam + 1):
         for sets in itertools.combinations(KEYSETS, k):
             for cname in CMPSETS:
@@ -160,7 +167,9 @@ def _judge(reg, root_ptr, before, keysets, comps, ret, shape_tokens, site):
         V("partition_mismatch", f"{len(by_index)} models registered, expected {n_expected} (components {comps})")
     # returned list
     try:
-        got = sorted((sorted(before.index(x) if x in before else -1 for x in group), id(nm)) for nm, group in ret)
+        def node_of(x):
+            return next((i for i, m in enumerate(before) if m is x), -1)
+        got = sorted((sorted(node_of(x) for x in group), id(nm)) for nm, group in ret)
     except Exception as e:  # unexpected structure of the return value
         got = f"unreadable: {e}"
     want = sorted((sorted(comp), id(nm)) for nm, comp in new_models)
@@ -222,19 +231,23 @@ def execute(case):
             return False
         edges = [(i, j) for i, j in itertools.combinations(range(n), 2) if rel(keysets[i], keysets[j])]
         tokens = [f"{a}~{b}" for a, b in itertools.combinations(sorted(sets), 2)
-                  if rel(set(a), set(b))] + [f"k:{s}" for s in sets]
+                  if rel(set(a), set(b))] + [f"k:{s}" for s in sets] + (["dup"] if len(set(sets)) < len(sets) else [])
         site = "B:" + case["cmp"]
     gen = MetadataGenerator(str_types_registry=pipeline.make_str_registry())
     reg = ModelRegistry(*cmps)
     meta = gen.generate(*samples)
     root = reg.process_meta_data(meta, model_name="Root")
-    # node order: find the model for each key set
+    # node order: the model of node i
     before = []
-    for ks in keysets:
-        ms = [m for m in reg.models if set(m.type.keys()) == ks]
-        if len(ms) != 1:
-            raise core.HarnessError(f"driver: key set {ks} matched {len(ms)} models")
-        before.append(ms[0])
+    if case["space"] == "B":
+        for i in range(n):
+            before.append(root.type.type[f"m{i}"].type)      # the model the root field m<i> points to
+    else:
+        for ks in keysets:
+            ms = [m for m in reg.models if set(m.type.keys()) == ks]
+            if len(ms) != 1:
+                raise core.HarnessError(f"driver: key set {ks} matched {len(ms)} models")
+            before.append(ms[0])
     comps = _components(n, edges)
     try:
         ret = reg.merge_models(gen)
